@@ -19,8 +19,11 @@ CONSTANTS
   XsiPolicy,    \* "inplace" (as shipped: clear + refill the shared index, publish
                 \*  sys_modules last) | "publish" (fill a private index, publish it
                 \*  with one assignment)
-  CachePolicy   \* "class" (as shipped: metadata cached per class) |
+  CachePolicy,  \* "class" (as shipped: metadata cached per class) |
                 \* "class_ns" (per class and inherited namespace)
+  Vars,         \* Seq of [ns |-> Seq([k, u])]: wildcard fields and the namespaces they accept:
+                \* k = "uri" (u a uri, "" = no namespace) | "any" (##any) | "not" ("!u": ##other)
+  MemoPolicy    \* key of XmlVar.namespace_matches: "qname" (as shipped) | "local"
 
 NONE == "__none__"
 CIds == 1..Len(Classes)
@@ -52,7 +55,18 @@ FirstMatch(types, c) ==
 CKey(c, pns) == IF CachePolicy = "class_ns" /\ Classes[c].ownNs = NONE THEN <<c, pns>> ELSE <<c, NONE>>
 
 FreshState(loaded) ==
-  [cache |-> <<>>, xsi |-> [q \in QNs |-> <<>>], keys |-> {}, sysMods |-> 0, loaded |-> loaded]
+  [cache |-> <<>>, xsi |-> [q \in QNs |-> <<>>], keys |-> {}, sysMods |-> 0, loaded |-> loaded,
+   memo |-> <<>>]
+
+\* XmlVar._match_namespace(qname) for wildcard field v;  qn = <<uri, local>>, uri "" = none
+MatchNs(v, qn) ==
+  LET nss == Vars[v].ns  uri == qn[1]
+  IN IF nss = <<>> /\ uri = "" THEN TRUE
+     ELSE \E i \in DOMAIN nss :
+            LET chk == nss[i]
+            IN \/ (chk.k = "uri" /\ chk.u = uri)
+               \/ chk.k = "any"
+               \/ (chk.k = "not" /\ chk.u # uri)
 
 CacheHas(s, k) == \E i \in DOMAIN s.cache : s.cache[i][1] = k
 CacheGet(s, k) == s.cache[CHOOSE i \in DOMAIN s.cache : s.cache[i][1] = k][2]
@@ -87,20 +101,33 @@ SeqFetch(s, c, pns, xsi) ==
               sub == FirstMatch(f.r.types, c)
           IN IF sub = 0 THEN [s |-> f.s, r |-> b.r] ELSE SeqBuild(f.s, sub, pns)
 
+\* XmlVar.match_namespace(qname): memoised per field (the field metadata lives in the
+\* XmlMeta cached by the context, so the memo is context state)
+MemoKey(v, qn) == IF MemoPolicy = "local" THEN <<v, qn[2]>> ELSE <<v, qn>>
+SeqMatch(s, v, qn) ==
+  LET k == MemoKey(v, qn)
+      hit == \E i \in DOMAIN s.memo : s.memo[i][1] = k
+  IN IF hit THEN [s |-> s, r |-> [match |-> s.memo[CHOOSE i \in DOMAIN s.memo : s.memo[i][1] = k][2]]]
+     ELSE [s |-> [s EXCEPT !.memo = Append(s.memo, <<k, MatchNs(v, qn)>>)], r |-> [match |-> MatchNs(v, qn)]]
+
 \* reset()
-SeqReset(s) == [s EXCEPT !.cache = <<>>, !.xsi = [q \in QNs |-> <<>>], !.keys = {}, !.sysMods = 0]
+SeqReset(s) == [s EXCEPT !.cache = <<>>, !.xsi = [q \in QNs |-> <<>>], !.keys = {}, !.sysMods = 0,
+                          !.memo = <<>>]
 
 \* importing one more module (the environment)
 SeqImport(s) == [s EXCEPT !.loaded = s.loaded + 1]
 
 \* op records: [op |-> "build", c, pns] [op |-> "fetch", c, pns, xsi] [op |-> "find", q]
 \*             [op |-> "index"]  (build_xsi_cache alone, as find_type_by_fields calls it)
+\*             [op |-> "trybuild", c, pns]  (local_names_match: build, errors swallowed)
 \*             [op |-> "reset"] [op |-> "import"]
 SeqStep(s, o) ==
   CASE o.op = "build"  -> SeqBuild(s, o.c, o.pns)
     [] o.op = "fetch"  -> SeqFetch(s, o.c, o.pns, o.xsi)
     [] o.op = "find"   -> SeqFindTypes(s, o.q)
+    [] o.op = "match"  -> SeqMatch(s, o.v, o.qn)
     [] o.op = "index"  -> [s |-> SeqIndex(s), r |-> [ok |-> TRUE]]
+    [] o.op = "trybuild" -> [s |-> SeqBuild(s, o.c, o.pns).s, r |-> [ok |-> TRUE]]
     [] o.op = "reset"  -> [s |-> SeqReset(s), r |-> [ok |-> TRUE]]
     [] o.op = "import" -> [s |-> SeqImport(s), r |-> [ok |-> TRUE]]
 
